@@ -638,3 +638,32 @@ def f11_definite_assignment():
                     src = "def ident(v):\n    return v\ndef f(c):\n" + indent(body + "\n" + r) + "emit(f(True))\nemit(f(False))\n"
                     yield "F11", src, None
 
+
+def f12_evaluation_order():
+    """Every sub-expression is wrapped in a tracer: the ORDER in which operands, indices, targets and right-hand sides are
+    evaluated (and what has been evaluated when an error strikes) is part of the transcript."""
+    pre = ("def t(x):\n    emit(['t', x])\n    return x\ndef f3(a, b = 0, k = 0):\n    return [a, b, k]\n")
+    exprs = ["t(1) + t(2) * t(3)", "[t(1), t(2)]", "{t(1): t(2), t(3): t(4)}", "(t(1), t(2))", "t([1, 2])[t(0)]", "t([1, 2, 3])[t(0):t(2)]",
+             "t(1) if t(0) else t(2)", "t(0) and t(1)", "t(1) or t(2)", "t('a').upper()", "t('%s') % t(1)", "f3(t(1), t(2), k = t(3))",
+             "[t(i) for i in t([1, 2]) if t(i)]", "t(1) < t(2)", "t(1) in t([1])", "not t(0)", "-t(1)", "f3(*t([1, 2]), **t({'k': 3}))",
+             "t([1])[t(5)]", "t({})[t('k')]", "t(1) // t(0) + t(2)", "f3(t(1), t(2), zz = t(3))", "t([3, 1, 2])[t(0)] + t(1)",
+             "{t(i): t(i * 2) for i in t([1, 2])}", "t(f3)(t(1))", "t('x').join(t(['a', 'b']))"]
+    for e in exprs:
+        yield "F12.expr", pre + f"x = {e}\nemit(x)\n", None
+    for op in ("+=", "-=", "*=", "//=", "%=", "|=", "&="):
+        yield "F12.aug", pre + f"a = [7, 2]\na[t(0)] {op} t(3)\nemit(a)\n", None
+        yield "F12.aug", pre + f"a = [[7], [2]]\na[t(1)][t(0)] {op} t(3)\nemit(a)\n", None
+        yield "F12.aug", pre + f"d = {{'a': 7}}\nd[t('a')] {op} t(3)\nemit(d)\n", None
+        yield "F12.aug", pre + f"d = {{'a': 7}}\nd[t('b')] {op} t(3)\nemit(d)\n", None      # the read of the old element fails
+        yield "F12.aug", pre + f"a = [7, 2]\na[t(9)] {op} t(3)\nemit(a)\n", None
+        yield "F12.aug", pre + (f"a = [7, 2]\ndef bump():\n    a[0] = a[0] + 10\n    return 3\na[0] {op} bump()\nemit(a)\n"), None
+        yield "F12.aug", pre + (f"a = [7, 2]\ndef grow():\n    a.insert(0, 100)\n    return 3\na[t(0)] {op} grow()\nemit(a)\n"), None
+        yield "F12.aug", pre + f"x = 7\nx {op} t(3)\nemit(x)\n", None
+    yield "F12.aug", pre + "a = [[1], [2]]\na[t(0)] += t([5])\nemit(a)\n", None
+    yield "F12.aug", pre + "a = ['s']\na[t(0)] += t('u')\nemit(a)\n", None
+    yield "F12.aug", pre + "a = [1]\na[t(0)] += t('u')\nemit(a)\n", None
+    for st in ["a[t(0)] = t(5)", "a[t(0)], a[t(1)] = t(5), t(6)", "a[t(1)], a[t(0)] = a[t(0)], a[t(1)]", "[a[t(0)], a[t(1)]] = [t(5), t(6)]",
+               "a[t(0)] = a[t(1)] = t(5)" if False else "a[t(0)] = t(a[t(1)])", "a[t(7)] = t(5)", "a[t(0)], a[t(7)] = t(5), t(6)",
+               "x, a[t(0)] = t(5), t(6)", "a[t(0)], x = t((5, 6))"]:
+        yield "F12.assign", pre + f"a = [1, 2]\n{st}\nemit(a)\n", None
+
